@@ -6,6 +6,7 @@ import (
 	"go/token"
 	"go/types"
 	"math/big"
+	"regexp"
 	"strconv"
 	"strings"
 
@@ -384,6 +385,9 @@ func (e *Engine) verifyFunction(key string) (u *Unit, err error) {
 	}
 	if ct != nil {
 		for _, l := range ct.Lets {
+			if regexp.MustCompile(`^(r\d+|result)$`).MatchString(l.Name) && fn.Signature.Results().Len() > 0 {
+				return nil, fmt.Errorf("%s: let %s clashes with the name of a result", l.Where, l.Name)
+			}
 			v := env.eval(l.Expr)
 			d := u.define("let_"+l.Name, v.S, v.T)
 			fr.names[l.Name] = Val{T: d, Ty: v.Ty, S: v.S}
